@@ -80,6 +80,10 @@ func TestVerifShutdownFullQueue(t *testing.T) {
 		if ev == "Deq" {
 			atomic.AddInt32(&held, 1)
 			<-gate // the workers stall with a datagram in hand
+			if os.Getenv("VERIF_MODE") != "backlog" {
+				// ... and come back slowly: the backlog is still being worked off while shutdown() goes on
+				time.Sleep(700 * time.Microsecond)
+			}
 		}
 	}
 	var p proto_
